@@ -172,7 +172,7 @@ func (c *simCtx) isBase(v ssa.Value) bool {
 }
 
 func (c *simCtx) isSubjectList(v ssa.Value) bool {
-	if !c.sc.Elem || c.sc.Acc != nil {
+	if !c.sc.Elem {
 		return false
 	}
 	v = resolve(v)
@@ -517,6 +517,19 @@ func (c *simCtx) errValueFails(ev ssa.Value) (bool, bool) {
 
 // mapScenario: translate the scenario to the callee's parameters.
 func (c *simCtx) mapScenario(call *ssa.Call, g *ssa.Function) (scenario, bool) {
+	out, ok := c.mapScenario0(call, g)
+	if ok && c.sc.NonEmpty > 0 {
+		out.NonEmpty = 0
+		for i, a := range call.Call.Args {
+			if c.sc.NonEmpty-1 < len(c.f.Params) && resolve(a) == ssa.Value(c.f.Params[c.sc.NonEmpty-1]) {
+				out.NonEmpty = i + 1
+			}
+		}
+	}
+	return out, ok
+}
+
+func (c *simCtx) mapScenario0(call *ssa.Call, g *ssa.Function) (scenario, bool) {
 	args := call.Call.Args
 	sc := c.sc
 	if sc.Kind == scPairRel {
